@@ -7,6 +7,9 @@
 //!   lv_store script <dir>                debugging aid: commands from stdin, `restart` re-spawns the child
 mod child;
 mod dbproc;
+mod gen;
+mod hist;
+mod suites;
 
 use lvharness::sx::Sx;
 use std::io::BufRead;
@@ -42,6 +45,87 @@ fn script(dir: &str) {
     p.close();
 }
 
+/// The case protocol of `lvharness::cli_main`, with the cases of a `run` executed by a pool of worker
+/// threads (every history spends most of its time waiting for child processes).
+fn cli(suites: Vec<Box<dyn lvharness::suite::Suite>>) {
+    use lvharness::suite::{emit, Outcome};
+    use std::io::Write;
+    let args: Vec<String> = std::env::args().collect();
+    if args.len() < 2 {
+        eprintln!("usage: run|replay|list ...");
+        std::process::exit(2);
+    }
+    if std::env::var("LV_PANIC_TRACE").is_err() {
+        std::panic::set_hook(Box::new(|_| {}));
+    }
+    let get = |flag: &str| -> Option<String> { args.iter().position(|a| a == flag).and_then(|i| args.get(i + 1).cloned()) };
+    match args[1].as_str() {
+        "list" => {
+            for s in &suites {
+                println!("{}", s.name());
+            }
+        }
+        "run" => {
+            let name = &args[2];
+            let seed: u64 = get("--seed").map(|s| s.parse().unwrap()).unwrap_or(1);
+            let tier = get("--tier").unwrap_or_else(|| "quick".into());
+            let out_path = get("--out").expect("--out");
+            let jobs: usize = get("--jobs").map(|s| s.parse().unwrap()).unwrap_or(12);
+            let s = suites.iter().find(|s| s.name() == name).unwrap_or_else(|| {
+                eprintln!("unknown suite {}", name);
+                std::process::exit(2)
+            });
+            let cases = s.generate(seed, &tier);
+            let next = std::sync::atomic::AtomicUsize::new(0);
+            let results: std::sync::Mutex<Vec<Option<Vec<Outcome>>>> = std::sync::Mutex::new((0..cases.len()).map(|_| None).collect());
+            std::thread::scope(|sc| {
+                for _ in 0..jobs.min(cases.len().max(1)) {
+                    sc.spawn(|| loop {
+                        let i = next.fetch_add(1, std::sync::atomic::Ordering::SeqCst);
+                        if i >= cases.len() {
+                            break;
+                        }
+                        let r = std::panic::catch_unwind(std::panic::AssertUnwindSafe(|| s.run(&cases[i].input)));
+                        let outs = match r {
+                            Ok(o) => o,
+                            Err(e) => vec![Outcome {
+                                oracle: Some(format!("harness panic: {}", lvharness::suite::panic_message(e))),
+                                signature: Some("harness-panic".into()),
+                                ..Default::default()
+                            }],
+                        };
+                        results.lock().unwrap()[i] = Some(outs);
+                    });
+                }
+            });
+            let mut out = std::io::BufWriter::new(std::fs::File::create(&out_path).unwrap());
+            let results = results.into_inner().unwrap();
+            for (c, outs) in cases.iter().zip(results.into_iter()) {
+                for o in outs.unwrap_or_default() {
+                    emit(&mut out, s.name(), &c.class, &c.input, &o);
+                }
+            }
+            out.flush().unwrap();
+            eprintln!("{}: {} cases", name, cases.len());
+        }
+        "replay" => {
+            let name = &args[2];
+            let input = get("--input").expect("--input");
+            let s = suites.iter().find(|s| s.name() == name).expect("unknown suite");
+            let inp = Sx::parse(&input).expect("bad input sexp");
+            let stdout = std::io::stdout();
+            let mut out = stdout.lock();
+            for o in s.run(&inp) {
+                emit(&mut out, s.name(), "replay", &inp, &o);
+            }
+        }
+        _ => {
+            eprintln!("unknown command");
+            std::process::exit(2);
+        }
+    }
+}
+
 fn main() {
     let args: Vec<String> = std::env::args().collect();
     if args.len() >= 3 && args[1] == "child" {
@@ -52,6 +136,5 @@ fn main() {
         script(&args[2]);
         return;
     }
-    let v: Vec<Box<dyn lvharness::suite::Suite>> = vec![];
-    lvharness::cli_main(v);
+    cli(suites::all());
 }
